@@ -271,6 +271,10 @@ Proof.
     apply Nat.eqb_eq in E. subst u. rewrite Ep. cbn [in_window andb]. cbn [exec] in Ee.
     destruct (hooks (sh st)); inversion Ee; subst. cbn [prog set_prog].
     destruct (in_window r) eqn:Wd; auto; destruct (S1 eq_refl) as [X|[X _]]; discriminate X.
+  - (* IResetShape *) other.
+    rewrite F, W, L, R. destruct (lkC (sh st)) as [[u n]|]; auto. unfold upd. destruct (Nat.eqb u t) eqn:E; auto.
+    apply Nat.eqb_eq in E. subst u. rewrite Ep. cbn [in_window andb]. inversion Ee; subst. cbn [prog set_prog].
+    destruct (in_window r) eqn:Wd; auto; destruct (S1 eq_refl) as [X|[X _]]; discriminate X.
 Qed.
 
 Lemma init_rinv live sh0 r0 progs : RInv (init_state live sh0 r0 progs).
